@@ -17,7 +17,14 @@ for sid in sorted(os.listdir(os.path.join(verif, "seeded"))):
     others = ", ".join(sorted(k for k in fired if k != own))
     what = m.get("summary", "")
     rows.append((sid, own, "yes: " + rule if own in fired else "**no**", others, what))
-print("| seeded change | breaks | caught by its own check (rule) | other checks that fire | what it is |")
-print("|---|---|---|---|---|")
-for r in rows:
-    print("| %s | %s | %s | %s | %s |" % r)
+import sys
+lines = ["| seeded change | breaks | caught by its own check (rule) | other checks that fire | what it is |", "|---|---|---|---|---|"]
+lines += ["| %s | %s | %s | %s | %s |" % r for r in rows]
+print("\n".join(lines))
+if "--write" in sys.argv:
+    dp = os.path.join(verif, "DESIGN.md")
+    d = open(dp).read()
+    a = d.index("<!-- seeded-table:start")
+    a = d.index("\n", a) + 1
+    b = d.index("<!-- seeded-table:end -->")
+    open(dp, "w").write(d[:a] + "\n".join(lines) + "\n" + d[b:])
